@@ -27,7 +27,10 @@ Inductive case :=
           (obs_file : list lentry)                      (* querylog.json after the final flush, in order *)
           (obs_domains : list (bytes * N))              (* /control/stats top_queried_domains *)
           (obs_clients : list (bytes * bytes * N))      (* /control/stats top_clients: ClientID or address *)
-          (obs_total : N).                              (* num_dns_queries *)
+          (obs_total : N)                               (* num_dns_queries *)
+  (* the REAL finder wrappers of internal/home/clients.go on a registry built by
+     [ops]: findMultiple(ids).IgnoreQueryLog and shouldCountClient(ids) *)
+  | CFinder (ops : list op) (dhcp : list (addr * bytes)) (ids : list id) (obs_ignore_qlog obs_count : bool).
 
 Definition oracle (tbl : list (bytes * bool)) : bytes -> bool :=
   fun n => match bget n tbl with Some b => b | None => false end.
@@ -120,6 +123,10 @@ Definition case_ok (c : case) : bool :=
   | CScen anon refuse qign sign macs evs of od oc ot =>
       let '(r, ok) := replay refuse sign macs (init_state anon qign) evs in
       ok && final_ok (env_of refuse sign r) (fun c => bget c macs) (r_st r) of od oc ot
+  | CFinder ops dhcp ids oq oc =>
+      let ix := run ops empty_index in
+      Bool.eqb (qlog_client_ignored ix (fun a => zget a dhcp) ids) oq &&
+      Bool.eqb (stats_client_counted ix (fun a => zget a dhcp) ids) oc
   end.
 
 Definition mismatches := Base.Run.mismatches case_ok.
@@ -129,4 +136,7 @@ Definition explain (c : case) :=
   | CScen anon refuse qign sign macs evs _ _ _ _ =>
       let '(r, ok) := replay refuse sign macs (init_state anon qign) evs in
       (ok, map canon_entry (st_file (r_st r) ++ st_mem (r_st r)), st_stats (r_st r))
+  | CFinder ops dhcp ids _ _ =>
+      let ix := run ops empty_index in
+      (qlog_client_ignored ix (fun a => zget a dhcp) ids, [], [([], [], if stats_client_counted ix (fun a => zget a dhcp) ids then [1] else [0])])
   end.
